@@ -143,10 +143,25 @@ func (s *Session) Exec(f func() string) string {
 		}
 		s.timer.Reset(watchdog())
 	}
+	for again := 0; ; again++ {
+		select {
+		case r := <-ch:
+			return r
+		case <-s.timer.C:
+		}
+		if again < 3 && hx.PausedWithin(watchdog()+5*time.Second) {
+			// the machine stood still during the window (hx/pause.go): the call has not had its time yet
+			s.timer.Reset(watchdog())
+			continue
+		}
+		break
+	}
 	select {
-	case r := <-ch:
+	case r := <-ch: // finished while the timer fired
 		return r
-	case <-s.timer.C:
+	default:
+	}
+	{
 		atomic.AddInt32(&hangsSeen, 1)
 		s.hung = true // locks may be held for ever: the rest of the history answers `hang`
 		return "hang"
